@@ -136,7 +136,7 @@ EXPORT errno_t _wcrtomb_s_chk(size_t *restrict retvalp, char *restrict dest,
     if (dest) {
         CHK_DMAX_ZERO("wcrtomb_s")
         if (destbos == BOS_UNKNOWN) {
-            CHK_DMAX_MAX("wcrtomb_s", RSIZE_MAX_WSTR)
+            CHK_DMAX_MAX("wcrtomb_s", RSIZE_MAX_STR)
             BND_CHK_PTR_BOUNDS(dest, dmax);
         } else {
             CHK_DEST_OVR("wcrtomb_s", destbos)
